@@ -194,7 +194,9 @@ def install(rec):
         approx_thresh is None or approx_thresh > int(np.prod(dims)))
     mon("concurrence", "concurrence", r_concurrence)
     # Tr sqrt(.) is sqrt-conditioned at zero eigenvalues: rank deficient inputs
-    # are judged at 2e-4, full rank ones at 1e-6 (see DESIGN, C20)
+    # are judged at 2e-6 (d * sqrt(eps)), full rank ones at 1e-6. (Until the root of a
+    # rounding-level negative eigenvalue stopped being taken as imaginary in sqrtm
+    # the library was only good to ~1e-4 there and this bound was 2e-4.)
     def fid_domain(p1, p2, squared=False):
         return True
 
@@ -203,7 +205,7 @@ def install(rec):
         deficient = min(np.linalg.eigvalsh(a).min(), np.linalg.eigvalsh(b).min()) < 1e-10
         pure = (np.ndim(p1) == 1 or 1 in np.shape(p1)) or (np.ndim(p2) == 1 or 1 in np.shape(p2))
         return {"want": rl.fidelity(a, b, squared),
-                "atol": 1e-6 if (pure or not deficient) else 2e-4}
+                "atol": 1e-6 if (pure or not deficient) else 2e-6}
 
     def post_fid(snap, result, p1, p2, squared=False):
         err = abs(float(result) - snap["want"])
@@ -599,7 +601,7 @@ def wl_distances(rng, rec, tier):
     t = gen.attempt(qu.trace_distance, pa, pb)
     desc = {"d": d, "k1": k1, "k2": k2, "squared": sq}
     if f is not None and f2 is not None:
-        ftol = 2e-6 if (k1 == "pure" or k2 == "pure") else 4e-4
+        ftol = 2e-6 if (k1 == "pure" or k2 == "pure") else 4e-6
         rec.check("relation", "fidelity_symmetric", abs(f - f2) <= ftol,
                   mech="relation:fidelity_symmetric", detail=dict(desc, a=f, b=f2),
                   sig=(d, k1, k2, sq))
